@@ -234,6 +234,13 @@ access(all) fun main(): Int {
     log(box.q?.move(pI(3, 1)))
     log(box.q?.x)
     let ps = [a, b, box.p]
+    let xs = ps.map(fun (p: Point): Int {
+        let none: Int? = nil
+        let five: Int = 5
+        let q = p
+        return q.x + p.ys.length + (none ?? five)
+    })
+    log(xs)
     ps[pI(4, %d)].move(5)
     log(ps[0].x + ps[1].x + ps[2].x)
     return a.norm() + (box.q?.x ?? pI(5, 0))
